@@ -9,6 +9,55 @@ ALL = ["C%02d" % i for i in range(1, 21)]
 
 # id -> (category, technique, level text, level note, design ref)
 CHECKS = {
+    "C03": ("model_checking",
+            "history BFS over valid add calls (rpms / modules / extra files) with a lockstep layout model; write->read->write at every reachable state against the model",
+            "Every sequence of valid adds up to depth 4 (quick) / 6 (thorough) from the C12 menus is replayed on a fresh real object "
+            "in lockstep with the layout model; at every reachable state the manifest is written, re-read and the re-read mapping "
+            "compared with the model's mapping (so a loss shared by writer and reader is seen), compose section intact, second write "
+            "byte-identical, header current.",
+            "Trusts mc/models/layouts.py (written from the format docs) and the regex-free NEVRA splitter bound to the code by C13.",
+            "DESIGN.md section 5, C03"),
+    "C04": ("model_checking",
+            "explicit-state BFS over treeinfo descriptions (deviation bound k) cycled write->read->write against the spec; complete discinfo grid",
+            "All trees within k edits (quick 1, thorough 2) of five seeds (flat, src, layered+media, nested depth 3, Server-optional "
+            "tree) - child variants of every type, dashed UIDs, 7 path kinds incl. '' and '.', mixed-case and blank-containing option "
+            "names, several platforms, stage2/media/checksums - are built, written, re-read and compared fact by fact with the spec, "
+            "second write byte-identical, also from re-loaded parents; discinfo: full grid of 9 float timestamps x all short "
+            "descriptions in the domain x arches x 7 disc lists.",
+            "Trusts mc/build/ti.py; '%' and platform names ending in -<arch> are outside the alphabet (DESIGN.md section 4).",
+            "DESIGN.md section 5, C04"),
+    "C11": ("model_checking",
+            "history BFS over target.add(candidate)/reload on a real ComposeInfo in lockstep with a forest model; invariants and 110 get_variants queries per level on every state",
+            "All interleavings of valid and invalid adds (duplicate id as a different object, same object again, foreign arch as first "
+            "and later child, misaligned UID, ancestor under descendant, top-level under another) over an 11-variant pool up to depth "
+            "5 (quick) / 8 (thorough: the model's state space closes), incl. reload; after every step the forest equals the model, "
+            "refusals raise ValueError and change nothing, parent/children mirror each other, every variant is found by UID and by id.",
+            "Trusts the forest model in mc/checks/c11.py; filtered get_variants results are judged for soundness (arch, type, order, "
+            "no duplicates), unfiltered ones for completeness.",
+            "DESIGN.md section 5, C11"),
+    "C12": ("model_checking",
+            "history BFS over valid and invalid add calls of Rpms/Modules/ExtraFiles in lockstep with a reference layout model; refusal => deep snapshot unchanged; dump_for_tree vs model",
+            "Every history up to depth 3 (quick) / 5 (thorough) over menus with one invalid call per refusal condition (29 conditions, "
+            "all required to be observed) is replayed on a fresh real object; after every call the public mapping equals the reference "
+            "layout, refused calls raise ValueError/TypeError and leave the mapping unchanged; equal list arguments are the same object "
+            "across calls (aliasing); dump_for_tree for 6 base-path classes at every extra-files state.",
+            "Trusts mc/models/layouts.py; an empty RPM path is not a documented refusal of Rpms.add and is not in the alphabet.",
+            "DESIGN.md section 5, C12"),
+    "C17": ("model_checking",
+            "the C04 treeinfo state space x every main-variant choice; [general] read by an independent INI reader and compared with the spec and the authoritative sections",
+            "For every tree within k edits of five seeds, every main-variant choice (None and each top-level UID), float and integer "
+            "timestamps: the text written by dump(main_variant=...) is parsed by an independent INI reader and [general] must equal the "
+            "values the property states (computed from the spec) and the [release]/[tree]/[variant-*] sections of the same file; the "
+            "compatibility section alone is loaded by the library's pre-productmd reader for plain names/paths.",
+            "Trusts mc/models/ini.py (40 lines) and expected_general() in mc/checks/c17.py.",
+            "DESIGN.md section 5, C17"),
+    "C18": ("fault_enumeration",
+            "fault enumeration: every validator invocation during dump(path) fails once (injected), for both pre-states, on 12 base objects of all 7 formats; plus real invalid nested values",
+            "One instrumented dump lists all validator invocations (top-level and inside nested writers); for every index i a fresh "
+            "object is dumped with the i-th invocation raising, with the destination absent and holding the previous good copy; "
+            "afterwards the path must have exactly its pre-state and no other file may appear.  Exhaustive over injection points.",
+            "Validators are found by name (_validate* on MetadataBase subclasses); the check reports itself vacuous if the seam is lost.",
+            "DESIGN.md section 5, C18"),
     "C01": ("model_checking",
             "explicit-state BFS over composeinfo descriptions (deviation bound k edits from seeds), each state built on the real library and cycled write->read->write against the spec as reference model",
             "All compose descriptions within k edits (quick 1, thorough 2) of three seeds - incl. depth-3 forests, layered-product "
